@@ -242,6 +242,16 @@ def small_file(seq, scheme, vel, variant=0, title=None, eol="\n", wide=None):
         resname, atoms = KINDS[kind]
         for an in atoms:
             recs.append(mk_record(len(recs), num, resname, an, vel, wide))
+    # atom-number column: from 1 (as most files), starting elsewhere, with gaps (a selection cut out of a larger system), wrapping at 99999
+    how = (variant // 2) % 4
+    if how:
+        def anum(i):
+            if how == 1:
+                return 4711 + i
+            if how == 2:
+                return 3 + 5 * i + (i % 3)
+            return (99998 + i) % 100000
+        recs = [r[:3] + (anum(i),) + r[4:] for i, r in enumerate(recs)]
     title = title or "verif C12  %s %s t= 0.0" % (scheme, ",".join(seq))
     box = BOXES[variant % 2]
     return fmt_file(title, recs, box, eol), recs, title, box
